@@ -106,6 +106,9 @@ fn field_menu() -> Vec<Field> {
         Field::OptU16(false),
         Field::Rest(0),
         Field::Rest(2),
+        Field::Rest(65535),
+        Field::Rest(65536),
+        Field::Rest(70001),
         Field::ArrayLast(0),
         Field::ArrayLast(2),
     ]
@@ -761,9 +764,16 @@ impl Prop for C18 {
                 for k in 0..6 {
                     let mut other = oid;
                     other[k] = if k < 2 { (oid[k] + 1) % 16 } else { oid[k].wrapping_add(1) };
-                    match lper::read_object_identifier(&other, &mut Cursor::new(lib.clone())) {
+                    // followed by a sentinel: a non-matching identifier is still consumed whole, and no further
+                    let mut stream = lib.clone();
+                    stream.extend_from_slice(&[0xEE, 0xEE]);
+                    let mut cur = Cursor::new(stream);
+                    match lper::read_object_identifier(&other, &mut cur) {
                         Ok(false) => {}
                         r => return fail("per-oid-accepts-a-different-identifier", format!("wire {:?} matched against {:?} (arc {}): {:?}", oid, other, k, r.map_err(|e| format!("{:?}", e)))),
+                    }
+                    if cur.position() != lib.len() as u64 {
+                        return fail("per-oid-mismatch-consumes-wrong-count", format!("wire {:?} read against {:?} (arc {} differs): consumed {} of {} bytes", oid, other, k, cur.position(), lib.len()));
                     }
                 }
                 Outcome::pass("per-oid", true)
